@@ -45,12 +45,34 @@ def _worker_init(pid: str) -> None:
     sys.stdout = open(os.devnull, "w")  # noqa: SIM115
 
 
+def _escaped_sig(e: BaseException):
+    """signature of an exception that escaped a unit - only if its INNERMOST frame is library code (a harness bug, whose
+    innermost frame is harness code, stays a HARNESS-ERROR)"""
+    tb = traceback.extract_tb(e.__traceback__)
+    if not tb:
+        return None
+    fn = tb[-1].filename.replace("\\", "/")
+    if "/pipefunc/" in fn and "/vmc/" not in fn:
+        return {"kind": "exception-escaped-the-harness", "exc": type(e).__name__, "site": findings.exc_site(e)}
+    return None
+
+
 def _run_unit(args):
     stage, unit = args
     t = time.time()
     try:
         acc = _MOD.run_unit(unit)
-    except BaseException:  # noqa: BLE001
+    except BaseException as e:  # noqa: BLE001
+        sig = _escaped_sig(e)
+        if sig is not None:
+            # the library raised where the harness (written against the unchanged tree) expects it not to: a verdict on the
+            # library, not a harness failure - reported like any other violation, replayed by re-running the unit
+            from .acc import Acc as _Acc
+            acc = _Acc()
+            acc.case(None)
+            acc.violation(sig, {"__unit__": [stage, unit]},
+                          f"unit {stage} {str(unit)[:160]}: {type(e).__name__}: {str(e)[:160]} escaped from {sig['site']}")
+            return stage, acc, None, time.time() - t
         return stage, None, traceback.format_exc(), time.time() - t
     return stage, acc, None, time.time() - t
 
@@ -63,6 +85,14 @@ def _replay_in_child(pid: str, artefact: dict):
 
 
 def _replay_job(artefact):
+    if "__unit__" in artefact:  # an exception that escaped a whole unit: re-run the unit
+        stage, unit = artefact["__unit__"]
+        try:
+            _MOD.run_unit(tuple(unit) if isinstance(unit, list) else unit)
+        except BaseException as e:  # noqa: BLE001
+            sig = _escaped_sig(e)
+            return ([sig], None) if sig is not None else (None, traceback.format_exc())
+        return [], None
     try:
         return [dict(s) for s in _MOD.replay(artefact)], None
     except BaseException:  # noqa: BLE001
